@@ -5,32 +5,41 @@
    value of V (0 for int, nil for interface types) and may itself be stored.
    Results: <<value, flag>> pairs, flags as 0/1. No result is a panic. *)
 EXTENDS Integers, Sequences, FiniteSets, TLC, Json
-CONSTANTS Keys, Vals, Cls(_), WithCmp
+CONSTANTS Keys, Vals, Cls(_), WithCmp, NanKey
+\* NanKey: a key that is not equal to itself (a float64 NaN; 0 = no such key). sync.Map then never finds it again: every
+\* Store / LoadOrStore / Swap adds another entry that only Range can still see (`nan`, at most 2 in the bounded model).
 \* Cls(v): the class of v under Go's == (sync.Map compares with ==): for float64 values -0.0 (value 2) and +0.0 (the zero
 \* value 0) are different values that compare equal. WithCmp = FALSE leaves out CompareAndSwap / CompareAndDelete (value
 \* types that are not comparable, e.g. slices inside an `any`: sync.Map itself panics there).
 ClsId(v) == v
 ClsF(v) == IF v = 2 THEN 0 ELSE v
 Absent == -1
-VARIABLES m, op
-Has(k) == m[k] # Absent
+VARIABLES m, nan, op
+Has(k) == k # NanKey /\ m[k] # Absent
 V0(k) == IF Has(k) THEN m[k] ELSE 0
 B(b) == IF b THEN 1 ELSE 0
-Load(k, r) == r = <<V0(k), B(Has(k))>> /\ UNCHANGED m
-Store(k, v, r) == r = <<0, 0>> /\ m' = [m EXCEPT ![k] = v]
-LoadOrStore(k, v, r) == IF Has(k) THEN r = <<m[k], 1>> /\ UNCHANGED m ELSE r = <<v, 0>> /\ m' = [m EXCEPT ![k] = v]
-LoadAndDelete(k, r) == r = <<V0(k), B(Has(k))>> /\ m' = [m EXCEPT ![k] = Absent]
-Delete(k, r) == r = <<0, 0>> /\ m' = [m EXCEPT ![k] = Absent]
-Swap(k, v, r) == r = <<V0(k), B(Has(k))>> /\ m' = [m EXCEPT ![k] = v]
-CompareAndSwap(k, old, new, r) == IF Has(k) /\ Cls(m[k]) = Cls(old) THEN r = <<0, 1>> /\ m' = [m EXCEPT ![k] = new] ELSE r = <<0, 0>> /\ UNCHANGED m
-CompareAndDelete(k, old, r) == IF Has(k) /\ Cls(m[k]) = Cls(old) THEN r = <<0, 1>> /\ m' = [m EXCEPT ![k] = Absent] ELSE r = <<0, 0>> /\ UNCHANGED m
+Put(k, v) == IF k = NanKey THEN nan' = Append(nan, v) /\ UNCHANGED m ELSE m' = [m EXCEPT ![k] = v] /\ UNCHANGED nan
+Room(k) == k = NanKey => Len(nan) < 2
+Same == UNCHANGED <<m, nan>>
+Load(k, r) == r = <<V0(k), B(Has(k))>> /\ Same
+Store(k, v, r) == Room(k) /\ r = <<0, 0>> /\ Put(k, v)
+LoadOrStore(k, v, r) == IF Has(k) THEN r = <<m[k], 1>> /\ Same ELSE Room(k) /\ r = <<v, 0>> /\ Put(k, v)
+Del(k) == IF k = NanKey THEN Same ELSE m' = [m EXCEPT ![k] = Absent] /\ UNCHANGED nan
+LoadAndDelete(k, r) == r = <<V0(k), B(Has(k))>> /\ Del(k)
+Delete(k, r) == r = <<0, 0>> /\ Del(k)
+Swap(k, v, r) == Room(k) /\ r = <<V0(k), B(Has(k))>> /\ Put(k, v)
+CompareAndSwap(k, old, new, r) == IF Has(k) /\ Cls(m[k]) = Cls(old) THEN r = <<0, 1>> /\ Put(k, new) ELSE r = <<0, 0>> /\ Same
+CompareAndDelete(k, old, r) == IF Has(k) /\ Cls(m[k]) = Cls(old) THEN r = <<0, 1>> /\ Del(k) ELSE r = <<0, 0>> /\ Same
 \* Range visits every present entry once (order unspecified): reported as the sorted list of <<k, v>>
 SetSeq(S) == LET RECURSIVE F(_) F(T) == IF T = {} THEN <<>> ELSE LET x == CHOOSE x \in T : \A y \in T : x <= y IN <<x>> \o F(T \ {x}) IN F(S)
-Entries == LET ks == SetSeq({k \in Keys : Has(k)}) IN [i \in 1..Len(ks) |-> <<ks[i], m[ks[i]]>>]
-RangeOp(r) == r = Entries /\ UNCHANGED m
+SortVals(s) == LET RECURSIVE F(_) F(u) == IF u = <<>> THEN <<>> ELSE
+                   LET i == CHOOSE i \in 1..Len(u) : \A j \in 1..Len(u) : u[i] <= u[j] IN <<u[i]>> \o F(SubSeq(u, 1, i - 1) \o SubSeq(u, i + 1, Len(u))) IN F(s)
+Entries == LET ks == SetSeq({k \in Keys : Has(k)})  ns == SortVals(nan) IN
+           [i \in 1..Len(ks) |-> <<ks[i], m[ks[i]]>>] \o [i \in 1..Len(ns) |-> <<NanKey, ns[i]>>]
+RangeOp(r) == r = Entries /\ Same
 
 R(name, args, res) == op' = [name |-> name, args |-> args, res |-> res]
-Init == m = [k \in Keys |-> Absent] /\ op = [name |-> "init", args |-> <<>>, res |-> <<0, 0>>]
+Init == m = [k \in Keys |-> Absent] /\ nan = <<>> /\ op = [name |-> "init", args |-> <<>>, res |-> <<0, 0>>]
 Res == (Vals \X {0, 1})
 Next ==
   \/ \E k \in Keys, r \in Res :
@@ -40,10 +49,10 @@ Next ==
                           \/ (WithCmp /\ CompareAndDelete(k, v, r) /\ R("CompareAndDelete", <<k, v>>, r))
                           \/ (WithCmp /\ \E w \in Vals : CompareAndSwap(k, v, w, r) /\ R("CompareAndSwap", <<k, v, w>>, r))
   \/ (RangeOp(Entries) /\ R("Range", <<>>, Entries))
-vars == <<m, op>>
+vars == <<m, nan, op>>
 Spec == Init /\ [][Next]_vars
-View == m
-LState == [m |-> [i \in 1..Cardinality(Keys) |-> m[i]]]
+View == <<m, nan>>
+LState == [m |-> [i \in 1..Cardinality(Keys) |-> m[i]], nan |-> nan]
 LObs == [entries |-> Entries]
 Dump == PrintT(<<"LTS", ToJson([from |-> LState, op |-> op', to |-> LState', obs |-> LObs'])>>)
 LInit == Init /\ PrintT(<<"LTSINIT", ToJson([from |-> LState, obs |-> LObs])>>)
